@@ -190,7 +190,13 @@ class SAAM:
         if self.acc is not None and self.mag is not None:
             self.Q = self._compute_all(self.acc, self.mag)
             if representation == 'rotmat':
-                self.A = Quaternion(self.Q).to_DCM() if self.Q.ndim < 2 else QuaternionArray(self.Q).to_DCM()
+                if self.Q.ndim < 2:
+                    self.A = Quaternion(self.Q).to_DCM()
+                else:
+                    usable = np.all(np.isfinite(self.Q), axis=1)    # Samples without an estimate (null or NaN readings) stay NaN
+                    self.A = np.full((len(self.Q), 3, 3), np.nan)
+                    if usable.any():
+                        self.A[usable] = QuaternionArray(self.Q[usable]).to_DCM()
 
     def _guard_clauses_parameters(self, representation: str) -> None:
         if not isinstance(representation, str):
